@@ -153,4 +153,656 @@ theorem qswitch_move (n : Nat) (env : Env) (inp : List Val) (c : Int) (k : Nat)
                            env := env, inp := rest, ctl := .normal } := by
   rcases hc with rfl | rfl <;> cases inp <;> exec_simp [qSwitch, qMvSnap, qMvQs, h5, hi, hcs, hq]
 
+/-! ## invariants -/
+
+/-- invariant of the retry loop: parameters bound as in the (only) call `wait_for_readers(&registry, NULL, &qsreaders, …)`,
+pc `scan`, counter `g` -/
+def IterInv (g : Nat) (gv : Val) (env : Env) (ss : SS) : Prop :=
+  env.vars "input_readers" = some (.ptr registry) ∧ env.vars "cur_snap_readers" = some (.int 0) ∧
+  env.vars "qsreaders" = some (.ptr qsr) ∧ env.vars "group" = some gv ∧ (∃ k : Int, env.vars "wait_loops" = some (.int k)) ∧
+  env.priv gpCtrQ = some (.int (encQ g)) ∧ ss.ls.upc = .scan ∧ ss.ls.gp = g ∧ ss.pend = none
+
+def ScanInv (g : Nat) (gv : Val) (env : Env) (ss : SS) : Prop :=
+  IterInv g gv env ss ∧ ∃ cur, env.vars "_t3" = some cur ∧ curOK ss.ls.inp none cur = true
+
+theorem inList_scan {g gv env ss} (h : IterInv g gv env ss) : inList ss.ls registry = some ss.ls.inp := by
+  simp [inList, h.2.2.2.2.2.2.1]
+
+theorem IterInv_setVar {g gv} {env : Env} {ss : SS} (x : String) (v : Val) (h : IterInv g gv env ss)
+    (hx : x ≠ "input_readers" ∧ x ≠ "cur_snap_readers" ∧ x ≠ "qsreaders" ∧ x ≠ "group" ∧ x ≠ "wait_loops") :
+    IterInv g gv { vars := fun y => if y = x then some v else env.vars y, priv := env.priv } ss := by
+  obtain ⟨h1, h2, h3, h4, ⟨k, h5⟩, h6, h7, h8, h9⟩ := h
+  obtain ⟨x1, x2, x3, x4, x5⟩ := hx
+  refine ⟨?_, ?_, ?_, ?_, ⟨k, ?_⟩, h6, h7, h8, h9⟩ <;> simp only <;> rw [if_neg (Ne.symm ‹_›)] <;> assumption
+
+theorem IterInv_ss {g gv} {env : Env} {ss ss' : SS} (h : IterInv g gv env ss) (h1 : ss'.ls.upc = ss.ls.upc)
+    (h2 : ss'.ls.gp = ss.ls.gp) (h3 : ss'.pend = ss.pend) : IterInv g gv env ss' := by
+  obtain ⟨a1, a2, a3, a4, a5, a6, a7, a8, a9⟩ := h
+  exact ⟨a1, a2, a3, a4, a5, a6, by rw [h1]; exact a7, by rw [h2]; exact a8, by rw [h3]; exact a9⟩
+
+/-- private stores to other locations keep the invariant -/
+theorem IterInv_setPriv {g gv} {env : Env} {ss : SS} (l : Loc) (v : Val) (h : IterInv g gv env ss) (hl : l ≠ gpCtrQ) :
+    IterInv g gv { vars := env.vars, priv := fun m => if m = l then some v else env.priv m } ss := by
+  obtain ⟨a1, a2, a3, a4, a5, a6, a7, a8, a9⟩ := h
+  refine ⟨a1, a2, a3, a4, a5, ?_, a7, a8, a9⟩
+  simp only; rw [if_neg (Ne.symm hl)]; exact a6
+
+def ScanPost (g : Nat) (gv : Val) : Post := fun ctl env ss _ =>
+  match ctl with
+  | .normal => ScanInv g gv env ss
+  | .brk => IterInv g gv env ss
+  | .blocked => True
+  | _ => False
+
+set_option maxHeartbeats 1600000 in
+theorem qScanRest_holds (trk : Bool) (n : Nat) (g : Nat) (gv : Val) (env : Env) (inp : List Val) (ss : SS) (wins : Wins)
+    (k : Nat) (r : Val) (hit : IterInv g gv env ss) (hi : env.vars "index" = some (.ptr (.obj k))) (hk : k ∈ ss.ls.inp)
+    (h3 : env.vars "_t3" = some r) (hr : curOK ss.ls.inp (some k) r = true) :
+    Holds trk (exec (n+1) qScanRest env inp) ss wins (ScanPost g gv) := by
+  intro out ho
+  obtain ⟨hin, hcs, hq, hg, ⟨wl, hwl⟩, hp, hupc, hgp, hpend⟩ := hit
+  simp only [qScanRest, block] at ho
+  exec_simp_at ho [h3]
+  cases inp with
+  | nil =>
+    rw [qrs_nil (n+1) _ k gv (by simp [hi]) (by simp [hg])] at ho
+    simp at ho; subst ho
+    simp [Ok_nil_iff, ScanPost]
+  | cons v rest2 =>
+    rw [qrs_cons (n+1) _ v rest2 k gv (encQ g) (by simp [hi]) (by simp [hg]) (by simpa using hp)] at ho
+    exec_simp_at ho []
+    obtain ⟨⟨upc, gp, reg, inpl⟩, pend⟩ := ss
+    simp only at hupc hgp hpend hk hr
+    subst hpend; subst hupc; subst hgp
+    simp only [gpCtrQ] at hp
+    by_cases h0 : v = .int 0
+    · have hc2 : clsQ (encQ gp) v = 2 := by simp [clsQ, h0]
+      rw [qswitch_move n _ rest2 _ k (Or.inr hc2) (by simp) (by simp [hi]) (by simp [hcs]) (by simp [hq])] at ho
+      subst h0
+      cases rest2 <;> simp at ho <;> subst ho <;>
+        abs_simp [hk, ScanPost, ScanInv, IterInv, hin, hcs, hq, hg, hwl, hp, h3] <;>
+        (try (have := curOK_rm _ _ _ hr; simpa [curOK, mem_rm] using this))
+    · by_cases h1 : v = .int (encQ gp)
+      · have hc0 : clsQ (encQ gp) v = 0 := by
+          have : ¬ encQ gp = 0 := fun h => h0 (by rw [h1, h])
+          simp [clsQ, h1, this]
+        rw [qswitch_move n _ rest2 _ k (Or.inl hc0) (by simp) (by simp [hi]) (by simp [hcs]) (by simp [hq])] at ho
+        subst h1
+        have h0' : ¬ (encQ gp = 0) := fun h => h0 (by rw [h])
+        cases rest2 <;> simp at ho <;> subst ho <;>
+          abs_simp [hk, h0', ScanPost, ScanInv, IterInv, hin, hcs, hq, hg, hwl, hp, h3] <;>
+          (try (have := curOK_rm _ _ _ hr; simpa [curOK, mem_rm] using this))
+      · have hc1 : clsQ (encQ gp) v = 1 := by simp [clsQ, h0, h1]
+        rw [qswitch_old n _ rest2 (by simp [hc1])] at ho
+        simp at ho; subst ho
+        abs_simp [hk, h0, h1, ScanPost, ScanInv, IterInv, hin, hcs, hq, hg, hwl, hp, h3]
+        (try (have := curOK_weaken _ _ _ hr; simpa [curOK, mem_rm] using this))
+
+set_option maxHeartbeats 1600000 in
+theorem qScanBody_holds (trk : Bool) (n : Nat) (g : Nat) (gv : Val) (env : Env) (inp : List Val) (ss : SS) (wins : Wins)
+    (hI : ScanInv g gv env ss) : Holds trk (exec (n+1) qScanBody env inp) ss wins (ScanPost g gv) := by
+  intro out ho
+  obtain ⟨hit, cur, h3, hcur⟩ := hI
+  have hil := inList_scan hit
+  obtain ⟨hin, hcs, hq, hg, ⟨wl, hwl⟩, hp, hupc, hgp, hpend⟩ := hit
+  simp only [qScanBody, block] at ho
+  cases cur with
+  | int z =>
+    have hz : z = 0 := by simpa [curOK] using hcur
+    subst hz
+    exec_simp_at ho [h3]
+    subst ho
+    simp only [Ok_nil_iff, ScanPost]
+    exact ⟨hin, hcs, hq, hg, ⟨wl, by simpa using hwl⟩, hp, hupc, hgp, hpend⟩
+  | ptr l =>
+    cases l with
+    | obj k =>
+      have hk : k ∈ ss.ls.inp := by simpa [curOK] using hcur
+      cases inp with
+      | nil => exec_simp_at ho [h3, hin]; subst ho; simp [Ok_nil_iff, ScanPost]
+      | cons r rest =>
+        exec_simp_at ho [h3, hin]
+        generalize hR : exec (n + 1) qScanRest _ rest = R at ho
+        cases R with
+        | error m => simp at ho
+        | ok o2 =>
+          simp at ho; subst ho
+          dsimp only
+          by_cases hr : curOK ss.ls.inp (some k) r = true
+          · have := fun h1 h2 h3 h4 h5 => qScanRest_holds trk n g gv _ rest ss wins k r h1 h2 h3 h4 h5 o2 hR
+            have := this
+              ⟨by simp [hin], by simp [hcs], by simp [hq], by simp [hg], ⟨wl, by simp [hwl]⟩, hp, hupc, hgp, hpend⟩
+              (by simp) hk (by simp) hr
+            simp only [Ok_cons, absEv, absExt]
+            simp [hil, hpend, hr, lrun]
+            have hss : ({ ls := ss.ls, pend := none } : SS) = ss := by cases ss; simp_all
+            rw [hss]; exact this
+          · simp [Ok_cons, absEv, absExt, hil, hpend, hr]
+    | _ => simp [curOK] at hcur
+
+def ScanLoopPost (g : Nat) (gv : Val) : Post := fun ctl env ss _ =>
+  match ctl with
+  | .normal => IterInv g gv env ss
+  | .blocked | .fuel => True
+  | _ => False
+
+theorem qScanLoop_holds (trk : Bool) (n : Nat) (g : Nat) (gv : Val) (env : Env) (inp : List Val) (ss : SS) (wins : Wins)
+    (hI : ScanInv g gv env ss) : Holds trk (exec (n+1) (.loop qScanBody) env inp) ss wins (ScanLoopPost g gv) := by
+  simp only [exec]
+  refine Holds.loop _ (fun e s _ => ScanInv g gv e s) (ScanPost g gv) (ScanLoopPost g gv)
+    (fun e i s w h => qScanBody_holds trk n g gv e i s w h) ?_ ?_ ?_ ?_ ?_ (n+1) env inp ss wins hI
+  · intro e s w h; exact h
+  · intro e s w h; exact h.elim
+  · intro e s w h; exact h
+  · intro ctl e s w h1 h2 h3 h; cases ctl <;> simp_all [ScanPost, ScanLoopPost]
+  · intro e s w h; trivial
+
+def StepPost (g : Nat) (gv : Val) : Post := fun ctl env ss _ =>
+  match ctl with
+  | .normal => IterInv g gv env ss
+  | .blocked | .fuel => True
+  | _ => False
+
+theorem qA_holds (trk fuel) (g : Nat) (gv : Val) (env inp ss wins) (hI : IterInv g gv env ss) :
+    Holds trk (exec fuel qA env inp) ss wins (StepPost g gv) := by
+  intro out ho
+  obtain ⟨h1, h2, h3, h4, ⟨k, h5⟩, h6, h7, h8, h9⟩ := hI
+  by_cases hk : k < 100 <;> exec_simp_at ho [qA, h5, hk] <;> subst ho <;>
+    simp [Ok_nil_iff, StepPost, IterInv, *]
+
+theorem qFirst_holds (trk fuel) (g : Nat) (gv : Val) (env inp ss wins) (hI : IterInv g gv env ss) :
+    Holds trk (exec fuel qFirst env inp) ss wins
+      (fun ctl e s _ => match ctl with | .normal => ScanInv g gv e s | .blocked => True | _ => False) := by
+  intro out ho
+  have hil := inList_scan hI
+  have h1 := hI.1
+  have h9 := hI.2.2.2.2.2.2.2.2
+  obtain ⟨ls, pend⟩ := ss
+  simp only at h9 hil; subst h9
+  cases inp with
+  | nil => exec_simp_at ho [qFirst, h1]; subst ho; simp [Ok_nil_iff]
+  | cons r rest =>
+    exec_simp_at ho [qFirst, h1]; subst ho
+    have hI2 := IterInv_setVar "_t3" r hI (by decide)
+    by_cases hr : curOK ls.inp none r = true
+    · simp only [Ok_cons, absEv, absExt]
+      simp [hil, hr, lrun, Ok_nil_iff, ScanInv, hI2]
+    · simp [Ok_cons, absEv, absExt, hil, hr]
+
+theorem qEmpty_holds (trk fuel) (g : Nat) (gv : Val) (env inp ss wins) (hI : IterInv g gv env ss) :
+    Holds trk (exec fuel qEmpty env inp) ss wins
+      (fun ctl e s _ => match ctl with
+        | .normal => IterInv g gv e s ∧ ∃ r, e.vars "_t6" = some r ∧ r.truthy = decide (s.ls.inp = [])
+        | .blocked => True
+        | _ => False) := by
+  intro out ho
+  have hil := inList_scan hI
+  have h1 := hI.1
+  have h7 := hI.2.2.2.2.2.2.1
+  have h9 := hI.2.2.2.2.2.2.2.2
+  obtain ⟨ls, pend⟩ := ss
+  simp only at h9 hil h7; subst h9
+  have hnidle : ¬ (ls.upc = .idle ∧ registry = registry) := by simp [h7]
+  cases inp with
+  | nil => exec_simp_at ho [qEmpty, h1]; subst ho; simp [Ok_nil_iff]
+  | cons r rest =>
+    exec_simp_at ho [qEmpty, h1]; subst ho
+    have hI2 := IterInv_setVar "_t6" r hI (by decide)
+    by_cases hr : r.truthy = decide (ls.inp = [])
+    · simp only [Ok_cons, absEv, absExt]
+      simp [hil, hr, lrun, Ok_nil_iff, h7, hI2]
+    · simp [Ok_cons, absEv, absExt, hil, hr, h7]
+
+/-! ## the futex announcement (`wait_loops >= RCU_QS_ACTIVE_ATTEMPTS`) -/
+
+def LoopPost (g : Nat) (gv : Val) : Post := fun ctl env ss _ =>
+  match ctl with
+  | .normal | .brk => IterInv g gv env ss
+  | .blocked | .fuel => True
+  | _ => False
+
+theorem fence_holds (trk fuel) (p : Prim) (hp : p = .mb ∨ p = .wmb ∨ p = .relax ∨ p = .barrier ∨ p = .rmb)
+    (g : Nat) (gv : Val) (env inp ss wins) (hI : IterInv g gv env ss) :
+    Holds trk (exec fuel (.prim none p []) env inp) ss wins (StepPost g gv) := by
+  intro out ho
+  obtain ⟨ls, pend⟩ := ss
+  rcases hp with rfl | rfl | rfl | rfl | rfl <;> exec_simp_at ho [] <;> subst ho <;> abs_simp [StepPost] <;> exact hI
+
+theorem qWaitingBody_holds (trk fuel) (g : Nat) (gv : Val) (env inp ss wins) (hI : IterInv g gv env ss) :
+    Holds trk (exec fuel qWaitingBody env inp) ss wins (LoopPost g gv) := by
+  intro out ho
+  have h1 := hI.1
+  obtain ⟨ls, pend⟩ := ss
+  simp only [qWaitingBody, block] at ho
+  cases h2 : env.vars "_t2" with
+  | none => exec_simp_at ho [h2]
+  | some cur =>
+    have hI1 := IterInv_setVar "index" cur hI (by decide)
+    cases cur with
+    | int z =>
+      by_cases hz : z = 0
+      · subst hz
+        exec_simp_at ho [h2]; subst ho
+        simp only [Ok_nil_iff, LoopPost]; simpa using hI1
+      · cases inp with
+        | nil => exec_simp_at ho [h2, hz, h1]; subst ho; simp [Ok_nil_iff, LoopPost]
+        | cons r rest => exec_simp_at ho [h2, hz, h1]
+    | ptr l =>
+      cases inp with
+      | nil => exec_simp_at ho [h2, h1]; subst ho; simp [Ok_nil_iff, LoopPost]
+      | cons r rest =>
+        exec_simp_at ho [h2, h1]; subst ho
+        have hI2 := IterInv_setPriv (.field l "waiting") (.int 1)
+          (IterInv_setVar "_t2" r hI1 (by decide)) (by simp [gpCtrQ])
+        abs_simp [LoopPost]
+        exact hI2
+
+theorem eval_ge (env : Env) (k : Int) (h : env.vars "wait_loops" = some (.int k)) :
+    eval env (.bin .ge (.var "wait_loops") (.cst "qsbr.RCU_QS_ACTIVE_ATTEMPTS" (100))) = .ok (boolV (k ≥ 100)) := by
+  simp [eval, h, bind, Except.bind, evalBin]
+
+theorem StepPost_nn {g gv} (ctl e s w) (hn : ctl ≠ .normal) (h : StepPost g gv ctl e s w) : StepPost g gv ctl e s w := h
+
+theorem qAnnounce_holds (trk fuel) (g : Nat) (gv : Val) (env inp ss wins) (hI : IterInv g gv env ss) :
+    Holds trk (exec fuel qAnnounce env inp) ss wins (StepPost g gv) := by
+  have hnn : ∀ ctl e s w, ctl ≠ .normal → StepPost g gv ctl e s w → StepPost g gv ctl e s w := fun _ _ _ _ _ h => h
+  refine Holds.seq (Qa := StepPost g gv) ?_ ?_ hnn
+  · intro out ho
+    obtain ⟨ls, pend⟩ := ss
+    exec_simp_at ho []; subst ho
+    have hI2 := IterInv_setPriv gpFutexQ (.int (-1)) hI (by decide)
+    simp only [gpFutexQ] at hI2
+    abs_simp [StepPost]; exact hI2
+  intro e i s w hq
+  refine Holds.seq (fence_holds trk fuel .wmb (by simp) g gv e i s w hq) ?_ hnn
+  intro e i s w hq
+  refine Holds.seq (Qa := StepPost g gv) ?_ ?_ hnn
+  · intro out ho
+    obtain ⟨ls, pend⟩ := s
+    have h1 := hq.1
+    cases i <;> exec_simp_at ho [h1] <;> subst ho <;> abs_simp [StepPost]
+    exact IterInv_setVar "_t2" _ hq (by decide)
+  intro e i s w hq
+  refine Holds.seq (Qa := StepPost g gv) ?_ ?_ hnn
+  · simp only [exec]
+    refine Holds.loop _ (fun e s _ => IterInv g gv e s) (LoopPost g gv) (StepPost g gv)
+      (fun e i s w h => qWaitingBody_holds trk fuel g gv e i s w h) ?_ ?_ ?_ ?_ ?_ fuel e i s w hq
+    · intro e s w h; exact h
+    · intro e s w h; exact h.elim
+    · intro e s w h; exact h
+    · intro ctl e s w h1 h2 h3 h; cases ctl <;> simp_all [LoopPost, StepPost]
+    · intro e s w h; trivial
+  intro e i s w hq
+  exact fence_holds trk fuel .mb (by simp) g gv e i s w hq
+
+theorem qB_holds (trk fuel) (g : Nat) (gv : Val) (env inp ss wins) (hI : IterInv g gv env ss) :
+    Holds trk (exec fuel qB env inp) ss wins (StepPost g gv) := by
+  obtain ⟨k, h5⟩ := hI.2.2.2.2.1
+  rw [qB, Sync.exec_ifte _ _ _ _ _ _ _ (eval_ge env k h5)]
+  by_cases hk : k ≥ 100
+  · simp [boolV, hk, Val.truthy]
+    exact qAnnounce_holds trk fuel g gv env inp ss wins hI
+  · simp [boolV, hk, Val.truthy]
+    intro out ho
+    simp only [exec, Except.ok.injEq] at ho; subst ho
+    simpa [Ok_nil_iff, StepPost] using hI
+
+/-! ## `wait_gp` (urcu-qsbr.c) -/
+
+def wgBodyQ : Stmt :=
+  block [(.prim (some "_t1") .uload [.fieldAddr (.addrGlob "urcu_qsbr_gp") "futex", .cst "CMM_RELAXED" (0)]),
+    (.ifte (.bin .eq (.var "_t1") (.lit (-1)))
+      (block [(.prim (some "_t2") (.ext "futex_noasync") [.fieldAddr (.addrGlob "urcu_qsbr_gp") "futex", .cst "FUTEX_WAIT" (0), .lit (-1), .null, .null, .lit 0]),
+        (.ifte (.un .lnot (.var "_t2")) (.cont) (.skip)),
+        (.prim (some "_t3") (.ext "errno") []),
+        (.assign "_t4" (.var "_t3")),
+        (.ifte (.bin .eq (.var "_t4") (.cst "EAGAIN" (11))) (.ret none)
+          (.ifte (.bin .eq (.var "_t4") (.cst "EINTR" (4))) (.skip)
+            (block [(.prim (some "_t5") (.ext "errno") []), (.prim none (.ext "urcu_die") [.var "_t5"])])))])
+      (.brk))]
+def wgQ : Stmt := block [(.prim none .rmb []), (.loop wgBodyQ)]
+theorem qsbr_wg_eq : «qsbr.wait_gp» = wgQ := rfl
+
+/-- inside `wait_gp`: private view and checker state untouched -/
+def WInv (priv0 : Loc → Option Val) (ss0 : SS) (e : Env) (s : SS) : Prop := e.priv = priv0 ∧ s = ss0
+
+def WPost (priv0 : Loc → Option Val) (ss0 : SS) : Post := fun ctl e s _ =>
+  match ctl with
+  | .normal | .cont | .brk | .ret none => WInv priv0 ss0 e s
+  | .blocked | .fuel => True
+  | _ => False
+
+theorem wgBodyQ_holds (trk : Bool) (fuel : Nat) (priv0 : Loc → Option Val) (ss0 : SS) (env : Env) (inp : List Val)
+    (ss : SS) (wins : Wins) (hI : WInv priv0 ss0 env ss) :
+    Holds trk (exec fuel wgBodyQ env inp) ss wins (WPost priv0 ss0) := by
+  intro out ho
+  obtain ⟨ls, pend⟩ := ss
+  have hI' : ∀ vars, WInv priv0 ss0 { vars := vars, priv := env.priv } ⟨ls, pend⟩ := fun _ => hI
+  rcases inp with _ | ⟨v, rest⟩
+  · exec_simp_at ho [wgBodyQ]; subst ho; simp [Ok_nil_iff, WPost]
+  by_cases hv : v = .int (-1)
+  case neg =>
+    exec_simp_at ho [wgBodyQ, hv]; subst ho
+    abs_simp [WPost]
+    exact hI' _
+  subst hv
+  rcases rest with _ | ⟨r2, rest⟩
+  · exec_simp_at ho [wgBodyQ]; subst ho; abs_simp [WPost]
+  by_cases h2 : r2.truthy = true
+  case neg =>
+    simp [wgBodyQ, block, exec, iterate, eval, evalArgs, execPrim, bind, Except.bind, asLoc, Env.setVar, Env.setPriv,
+      bindParams, setDst, evalUn, evalBin, boolV, truthy_int, h2] at ho
+    subst ho; abs_simp [WPost]; exact hI' _
+  rcases rest with _ | ⟨r3, rest⟩
+  · simp [wgBodyQ, block, exec, iterate, eval, evalArgs, execPrim, bind, Except.bind, asLoc, Env.setVar, Env.setPriv,
+      bindParams, setDst, evalUn, evalBin, boolV, truthy_int, h2] at ho
+    subst ho; abs_simp [WPost]
+  by_cases h3 : r3 = .int 11
+  · subst h3
+    simp [wgBodyQ, block, exec, iterate, eval, evalArgs, execPrim, bind, Except.bind, asLoc, Env.setVar, Env.setPriv,
+      bindParams, setDst, evalUn, evalBin, boolV, truthy_int, h2] at ho
+    subst ho; abs_simp [WPost]; exact hI' _
+  by_cases h4 : r3 = .int 4
+  · subst h4
+    simp [wgBodyQ, block, exec, iterate, eval, evalArgs, execPrim, bind, Except.bind, asLoc, Env.setVar, Env.setPriv,
+      bindParams, setDst, evalUn, evalBin, boolV, truthy_int, h2] at ho
+    subst ho; abs_simp [WPost]; exact hI' _
+  rcases rest with _ | ⟨r4, _ | ⟨r5, rest⟩⟩ <;>
+    simp [wgBodyQ, block, exec, iterate, eval, evalArgs, execPrim, bind, Except.bind, asLoc, Env.setVar, Env.setPriv,
+      bindParams, setDst, evalUn, evalBin, boolV, truthy_int, h2, h3, h4] at ho <;>
+    subst ho <;> abs_simp [WPost]
+
+/-- `wait_gp()` of urcu-qsbr.c: silent events only, nothing changes (the registry lock is released / retaken by the caller) -/
+def WaitGpSpecQ (trk : Bool) (waitgp : Stmt) : Prop :=
+  ∀ fuel env inp ss wins,
+    Holds trk (exec fuel (.call none [] [] waitgp) env inp) ss wins
+      (fun ctl e s w => (ctl = .normal ∧ e = env ∧ s = ss) ∨ ctl = .blocked ∨ ctl = .fuel)
+
+def WPostN (priv0 : Loc → Option Val) (ss0 : SS) : Post := fun ctl e s _ =>
+  match ctl with
+  | .normal | .ret none => WInv priv0 ss0 e s
+  | .blocked | .fuel => True
+  | _ => False
+
+theorem qsbr_wg_spec (trk : Bool) : WaitGpSpecQ trk «qsbr.wait_gp» := by
+  rw [qsbr_wg_eq]
+  intro fuel env inp ss wins
+  refine Holds.call0 (Qb := WPostN env.priv ss) ?_ ?_ ?_ ?_ ?_ ?_
+  · refine Holds.seq (Qa := WPostN env.priv ss) ?_ ?_ (fun _ _ _ _ _ h => h)
+    · intro out ho
+      obtain ⟨ls, pend⟩ := ss
+      exec_simp_at ho []; subst ho
+      abs_simp [WPostN, WInv]
+    intro e i s w hq
+    simp only [block, exec]
+    refine Holds.loop _ (fun e s _ => WInv env.priv ss e s) (WPost env.priv ss) (WPostN env.priv ss)
+      (fun e i s w h => wgBodyQ_holds trk fuel env.priv ss e i s w h) ?_ ?_ ?_ ?_ ?_ fuel e i s w hq
+    · intro e s w h; exact h
+    · intro e s w h; exact h
+    · intro e s w h; exact h
+    · intro ctl e s w h1 h2 h3 h; cases ctl <;> simp_all [WPost, WPostN]
+      rename_i v; cases v <;> simp_all
+    · intro e s w h; trivial
+  · intro e s w h
+    have h' : WInv env.priv ss e s := h
+    refine Or.inl ⟨rfl, ?_, h'.2⟩
+    cases env; simp only [Env.mk.injEq, true_and]; exact h'.1
+  · intro e s w h
+    have h' : WInv env.priv ss e s := h
+    refine Or.inl ⟨rfl, ?_, h'.2⟩
+    cases env; simp only [Env.mk.injEq, true_and]; exact h'.1
+  · intro v e s w h; exact h.elim
+  · intro e s w h; exact Or.inr (Or.inl rfl)
+  · intro e s w h; exact Or.inr (Or.inr rfl)
+
+/-! ## one retry iteration and the whole `wait_for_readers` -/
+
+def IterPost (g : Nat) (gv : Val) : Post := fun ctl env ss _ =>
+  match ctl with
+  | .normal => IterInv g gv env ss
+  | .brk => IterInv g gv env ss ∧ ss.ls.inp = []
+  | .blocked | .fuel => True
+  | _ => False
+
+theorem qUnlock_holds (trk fuel) (g : Nat) (gv : Val) (env inp ss wins) (hI : IterInv g gv env ss) :
+    Holds trk (exec fuel qUnlock env inp) ss wins (StepPost g gv) := by
+  intro out ho
+  obtain ⟨ls, pend⟩ := ss
+  cases inp <;> exec_simp_at ho [qUnlock] <;> subst ho <;> abs_simp [StepPost]
+  exact hI
+
+theorem qLock_holds (trk fuel) (g : Nat) (gv : Val) (env inp ss wins) (hI : IterInv g gv env ss) :
+    Holds trk (exec fuel qLock env inp) ss wins (StepPost g gv) := by
+  intro out ho
+  obtain ⟨ls, pend⟩ := ss
+  obtain ⟨ls', hl1, hl2, hl3⟩ := lrun_env (wins.head?.getD []) ls
+  have hI2 : IterInv g gv env ⟨ls', pend⟩ := IterInv_ss hI hl2 hl3 rfl
+  cases inp <;> exec_simp_at ho [qLock] <;> subst ho <;> abs_simp [StepPost, hl1, hI2]
+
+theorem qTail_holds (trk fuel waitgp) (hW : WaitGpSpecQ trk waitgp) (g : Nat) (gv : Val) (env inp ss wins)
+    (hI : IterInv g gv env ss) (r : Val) (h6 : env.vars "_t6" = some r) (hr : r.truthy = decide (ss.ls.inp = [])) :
+    Holds trk (exec fuel (qTail waitgp) env inp) ss wins (IterPost g gv) := by
+  obtain ⟨k, hk⟩ := hI.2.2.2.2.1
+  have hnn : ∀ ctl e s w, ctl ≠ .normal → StepPost g gv ctl e s w → IterPost g gv ctl e s w := by
+    intro ctl e s w hn h; cases ctl <;> simp_all [StepPost, IterPost]
+  rw [qTail, Sync.exec_ifte _ _ _ _ _ _ _ (Sync.eval_var env "_t6" r h6)]
+  by_cases ht : r.truthy = true
+  · have hnil : ss.ls.inp = [] := by simpa [ht] using hr
+    simp only [ht, if_true]
+    refine Holds.seq (Qa := fun ctl e s _ => match ctl with
+        | .normal => IterInv g gv e s ∧ s.ls = ss.ls | .blocked | .fuel => True | _ => False) ?_ ?_ ?_
+    · rw [Sync.exec_ifte _ _ _ _ _ _ _ (eval_ge env k hk)]
+      by_cases hk100 : k ≥ 100
+      · simp [boolV, hk100, Val.truthy]
+        intro out ho
+        obtain ⟨ls, pend⟩ := ss
+        exec_simp_at ho [qReset]; subst ho
+        have hI2 := IterInv_setPriv gpFutexQ (.int 0) hI (by decide)
+        simp only [gpFutexQ] at hI2
+        abs_simp []; exact hI2
+      · simp [boolV, hk100, Val.truthy]
+        intro out ho
+        simp only [exec, Except.ok.injEq] at ho; subst ho
+        simpa [Ok_nil_iff] using hI
+    · intro e i s w hq out ho
+      simp only [block, exec, Except.ok.injEq] at ho; subst ho
+      obtain ⟨hq1, hq2⟩ := hq
+      simp only [Ok_nil_iff, IterPost]
+      exact ⟨hq1, by rw [hq2]; exact hnil⟩
+    · intro ctl e s w hn h
+      cases ctl <;> simp_all [IterPost]
+  · simp only [ht, if_false]
+    refine Holds.seq (qUnlock_holds trk fuel g gv env inp ss wins hI) ?_ hnn
+    intro e i s w hq
+    refine Holds.seq (Qa := StepPost g gv) ?_ ?_ hnn
+    · obtain ⟨k', hk'⟩ := hq.2.2.2.2.1
+      rw [Sync.exec_ifte _ _ _ _ _ _ _ (eval_ge e k' hk')]
+      by_cases hk100 : k' ≥ 100
+      · simp [boolV, hk100, Val.truthy]
+        refine (hW fuel e i s w).mono ?_
+        intro ctl e' s' w' h
+        rcases h with ⟨rfl, rfl, rfl⟩ | rfl | rfl
+        · exact hq
+        · trivial
+        · trivial
+      · simp [boolV, hk100, Val.truthy]
+        exact fence_holds trk fuel .relax (by simp) g gv e i s w hq
+    intro e i s w hq
+    refine (qLock_holds trk fuel g gv e i s w hq).mono ?_
+    intro ctl e s w h
+    cases ctl <;> simp_all [StepPost, IterPost]
+
+theorem wfrBodyQ_holds (trk n waitgp) (hW : WaitGpSpecQ trk waitgp) (g : Nat) (gv : Val) (env inp ss wins)
+    (hI : IterInv g gv env ss) : Holds trk (exec (n+1) (wfrBodyQ waitgp) env inp) ss wins (IterPost g gv) := by
+  have hnn : ∀ ctl e s w, ctl ≠ .normal → StepPost g gv ctl e s w → IterPost g gv ctl e s w := by
+    intro ctl e s w hn h; cases ctl <;> simp_all [StepPost, IterPost]
+  refine Holds.seq (qA_holds trk (n+1) g gv env inp ss wins hI) ?_ hnn
+  intro e i s w hq
+  refine Holds.seq (qB_holds trk (n+1) g gv e i s w hq) ?_ hnn
+  intro e i s w hq
+  refine Holds.seq (qFirst_holds trk (n+1) g gv e i s w hq) ?_ ?_
+  · intro e i s w hq
+    refine Holds.seq (qScanLoop_holds trk n g gv e i s w hq) ?_ ?_
+    · intro e i s w hq
+      refine Holds.seq (qEmpty_holds trk (n+1) g gv e i s w hq) ?_ ?_
+      · intro e i s w hq
+        obtain ⟨hq1, r, hq2, hq3⟩ := hq
+        exact qTail_holds trk (n+1) waitgp hW g gv e i s w hq1 r hq2 hq3
+      · intro ctl e s w hn h; cases ctl <;> simp_all [IterPost]
+    · intro ctl e s w hn h; cases ctl <;> simp_all [ScanLoopPost, IterPost]
+  · intro ctl e s w hn h; cases ctl <;> simp_all [IterPost]
+
+def WfrPost (g : Nat) (gv : Val) : Post := fun ctl env ss _ =>
+  match ctl with
+  | .normal => IterInv g gv env ss ∧ ss.ls.inp = []
+  | .blocked | .fuel => True
+  | _ => False
+
+def WfrPre (g : Nat) (gv : Val) (env : Env) (ss : SS) : Prop :=
+  env.vars "input_readers" = some (.ptr registry) ∧ env.vars "cur_snap_readers" = some (.int 0) ∧
+  env.vars "qsreaders" = some (.ptr qsr) ∧ env.vars "group" = some gv ∧
+  env.priv gpCtrQ = some (.int (encQ g)) ∧ ss.ls.upc = .scan ∧ ss.ls.gp = g ∧ ss.pend = none
+
+theorem wfrQ_holds (trk fuel waitgp) (hW : WaitGpSpecQ trk waitgp) (g : Nat) (gv : Val) (env inp ss wins)
+    (hP : WfrPre g gv env ss) : Holds trk (exec fuel (wfrQ waitgp) env inp) ss wins (WfrPost g gv) := by
+  obtain ⟨h1, h2, h3, h4, h6, h7, h8, h9⟩ := hP
+  have hI : IterInv g gv (env.setVar "wait_loops" (.int 0)) ss :=
+    ⟨by simp [Env.setVar, h1], by simp [Env.setVar, h2], by simp [Env.setVar, h3], by simp [Env.setVar, h4],
+      ⟨0, by simp [Env.setVar]⟩, h6, h7, h8, h9⟩
+  refine Holds.seq (Qa := fun ctl e s w => ctl = .normal ∧ IterInv g gv e s) ?_ ?_ ?_
+  · intro out ho
+    exec_simp_at ho []; subst ho
+    simp only [Ok_nil_iff, true_and]
+    simpa [Env.setVar] using hI
+  · intro e i s w hq
+    cases fuel with
+    | zero =>
+      intro out ho
+      simp only [block, exec, iterate, Except.ok.injEq] at ho; subst ho
+      simp [Ok_nil_iff, WfrPost]
+    | succ n =>
+      simp only [block, exec]
+      refine Holds.loop _ (fun e s _ => IterInv g gv e s) (IterPost g gv) (WfrPost g gv)
+        (fun e i s w h => wfrBodyQ_holds trk n waitgp hW g gv e i s w h) ?_ ?_ ?_ ?_ ?_ (n+1) e i s w hq.2
+      · intro e s w h; exact h
+      · intro e s w h; exact h.elim
+      · intro e s w h; exact h
+      · intro ctl e s w h1 h2 h3 h; cases ctl <;> simp_all [IterPost, WfrPost]
+      · intro e s w h; trivial
+  · intro ctl e s w hn h; exact absurd h.1 hn
+
+theorem qsbr_wfr_holds (trk fuel) (g : Nat) (gv : Val) (env inp ss wins) (hP : WfrPre g gv env ss) :
+    Holds trk (exec fuel «qsbr.wait_for_readers» env inp) ss wins (WfrPost g gv) := by
+  rw [qsbr_wfr_eq]; exact wfrQ_holds trk fuel _ (qsbr_wg_spec trk) g gv env inp ss wins hP
+
+/-! ## the grace period of `urcu_qsbr_synchronize_rcu` -/
+
+def qInc : Stmt :=
+  .prim none .ustore [.fieldAddr (.addrGlob "urcu_qsbr_gp") "ctr",
+    .bin .add (.pload (.fieldAddr (.addrGlob "urcu_qsbr_gp") "ctr")) (.cst "URCU_QSBR_GP_CTR" (2)), .cst "CMM_RELAXED" (0)]
+def qCallWfr (wfr : Stmt) : Stmt :=
+  .call none ["input_readers", "cur_snap_readers", "qsreaders", "group"]
+    [.addrGlob "registry", .null, .addrGlob "&qsreaders", .addrGlob "&acquire_group"] wfr
+def qSplice : Stmt := .prim none (.ext "cds_list_splice") [.addrGlob "&qsreaders", .addrGlob "registry"]
+/-- the `else` branch of `if (cds_list_empty(&registry)) goto out;` in `urcu_qsbr_synchronize_rcu` (64-bit variant) -/
+def gpBlockQ (wfr : Stmt) : Stmt :=
+  block [qInc, (.prim none .barrier []), (.prim none .mb []), qCallWfr wfr, qSplice]
+
+theorem encQ_succ (g : Nat) (hg : 1 ≤ g) : encQ g + 2 = encQ (g + 1) := by
+  unfold encQ
+  have : g ≠ 0 := by omega
+  simp [this]; omega
+
+def GInvQ (upc : Qsbr.UPc) (g : Nat) (K : LState → Prop) (vars : String → Option Val) (env : Env) (ss : SS) : Prop :=
+  env.vars = vars ∧ ss.ls.upc = upc ∧ ss.ls.gp = g ∧ ss.pend = none ∧ env.priv gpCtrQ = some (.int (encQ g)) ∧ K ss.ls
+
+def GPostQ (upc : Qsbr.UPc) (g : Nat) (K : LState → Prop) (vars : String → Option Val) : Post := fun ctl env ss _ =>
+  match ctl with
+  | .normal => GInvQ upc g K vars env ss
+  | .blocked | .fuel => True
+  | _ => False
+
+theorem GPostQ_nn {upc g K vars} {upc' g' K' vars'} (ctl e s w) (hn : ctl ≠ .normal)
+    (h : GPostQ upc g K vars ctl e s w) : GPostQ upc' g' K' vars' ctl e s w := by
+  cases ctl <;> simp_all [GPostQ]
+
+theorem gfence_holds (trk fuel) (p : Prim) (hp : p = .barrier ∨ p = .mb) (upc g K vars env inp ss wins)
+    (hI : GInvQ upc g K vars env ss) : Holds trk (exec fuel (.prim none p []) env inp) ss wins (GPostQ upc g K vars) := by
+  intro out ho
+  obtain ⟨ls, pend⟩ := ss
+  rcases hp with rfl | rfl <;> exec_simp_at ho [] <;> subst ho <;> abs_simp [GPostQ] <;> exact hI
+
+/-- from pc `idle` with a non-empty registry: `uInc` → scans → `uEnd`, back to pc `idle` with the counter advanced -/
+theorem gpBlockQ_holds (trk fuel wfr)
+    (hW : ∀ fuel g gv env inp ss wins, WfrPre g gv env ss → Holds trk (exec fuel wfr env inp) ss wins (WfrPost g gv))
+    (g : Nat) (hg : 1 ≤ g) (vars env inp ss wins) (hI : GInvQ .idle g (fun ls => ls.reg ≠ []) vars env ss) :
+    Holds trk (exec fuel (gpBlockQ wfr) env inp) ss wins (GPostQ .idle (g+1) (fun _ => True) vars) := by
+  refine Holds.seq (Qa := GPostQ .scan (g+1) (fun _ => True) vars) ?_ ?_ (fun ctl e s w hn h => GPostQ_nn ctl e s w hn h)
+  · intro out ho
+    obtain ⟨⟨u, gp, reg, inpl⟩, pend⟩ := ss
+    obtain ⟨h1, h2, h3, h4, h5, h6⟩ := hI
+    simp only at h2 h3 h4 h6; subst h2; subst h3; subst h4
+    simp only [gpCtrQ] at h5
+    exec_simp_at ho [qInc, h5]; subst ho
+    rw [encQ_succ gp hg]
+    abs_simp [GPostQ, GInvQ, h6, h1]
+  intro e i s w hq
+  refine Holds.seq (gfence_holds trk fuel .barrier (Or.inl rfl) .scan (g+1) (fun _ => True) vars e i s w hq) ?_
+    (fun ctl e s w hn h => GPostQ_nn ctl e s w hn h)
+  intro e i s w hq
+  refine Holds.seq (gfence_holds trk fuel .mb (Or.inr rfl) .scan (g+1) (fun _ => True) vars e i s w hq) ?_
+    (fun ctl e s w hn h => GPostQ_nn ctl e s w hn h)
+  intro e i s w hq
+  refine Holds.seq (Qa := GPostQ .scan (g+1) (fun ls => ls.inp = []) vars) ?_ ?_ (fun ctl e s w hn h => GPostQ_nn ctl e s w hn h)
+  · obtain ⟨h1, h2, h3, h4, h5, _⟩ := hq
+    refine Holds.callN (vs := [.ptr registry, .int 0, .ptr qsr, .ptr (.glob "&acquire_group")])
+      (by simp [evalArgs, eval, bind, Except.bind, registry, qsr]) rfl
+      (hW fuel (g+1) (.ptr (.glob "&acquire_group")) _ i s w ⟨rfl, rfl, rfl, rfl, h5, h2, h3, h4⟩) ?_ ?_ ?_ ?_ ?_
+    · intro e' s' w' h
+      obtain ⟨⟨_, _, _, _, _, a6, a7, a8, a9⟩, hnil⟩ := h
+      exact ⟨h1, a7, a8, a9, a6, hnil⟩
+    · intro e' s' w' h; exact h.elim
+    · intro v e' s' w' h; exact h.elim
+    · intro e' s' w' h; trivial
+    · intro e' s' w' h; trivial
+  intro e i s w hq
+  intro out ho
+  obtain ⟨⟨u, gp, reg, inpl⟩, pend⟩ := s
+  obtain ⟨h1, h2, h3, h4, h5, h6⟩ := hq
+  simp only at h2 h3 h4 h6; subst h2; subst h3; subst h4; subst h6
+  cases i <;> exec_simp_at ho [qSplice] <;> subst ho <;> abs_simp [GPostQ, GInvQ, h1]
+  exact h5
+
+/-- the whole `urcu_qsbr_synchronize_rcu` as generated: `gpBlockQ` is its grace-period branch (checked by `rfl`) -/
+def syncQT (wfr : Stmt) : Stmt :=
+  block [(.assign "_goto_gp_end" (.lit 0)), (.assign "_goto_out" (.lit 0)),
+    (.pstore (.fieldAddr (.addrGlob "&wait") "state") (.cst "URCU_WAIT_WAITING" (0))),
+    (.call (some "_t1") [] [] «qsbr.urcu_qsbr_read_ongoing»), (.assign "was_online" (.var "_t1")),
+    (.ifte (.var "was_online") (.call none [] [] «qsbr.urcu_qsbr_thread_offline») (.prim none .mb [])),
+    (.call (some "_t2") ["queue", "node"] [.addrGlob "gp_waiters", .addrGlob "&wait"] «urcu_wait_add»),
+    (.ifte (.bin .ne (.var "_t2") (.lit 0))
+      (block [(.call none ["wait"] [.addrGlob "&wait"] «urcu_adaptative_busy_wait»), (.assign "_goto_gp_end" (.lit 1))]) (.skip)),
+    (.ifte (.var "_goto_gp_end") (.skip)
+      (block [(.call none ["node", "state"] [.addrGlob "&wait", .cst "URCU_WAIT_RUNNING" (2)] «urcu_wait_set_state»),
+        (.prim none (.ext "mutex_lock") [.addrGlob "rcu_gp_lock"]),
+        (.call none ["waiters", "queue"] [.addrGlob "&waiters", .addrGlob "gp_waiters"] «urcu_move_waiters»),
+        (.prim none (.ext "mutex_lock") [.addrGlob "rcu_registry_lock"]),
+        (.prim (some "_t3") (.ext "cds_list_empty") [.addrGlob "registry"]),
+        (.ifte (.var "_t3") (.assign "_goto_out" (.lit 1)) (.skip)),
+        (.ifte (.var "_goto_out") (.skip) (gpBlockQ wfr)),
+        (.assign "_goto_out" (.lit 0)),
+        (.prim none (.ext "mutex_unlock") [.addrGlob "rcu_registry_lock"]),
+        (.prim none (.ext "mutex_unlock") [.addrGlob "rcu_gp_lock"]),
+        (.call none ["waiters"] [.addrGlob "&waiters"] «urcu_wake_all_waiters»)])),
+    (.assign "_goto_gp_end" (.lit 0)),
+    (.ifte (.var "was_online") (.call none [] [] «qsbr.urcu_qsbr_thread_online») (.prim none .mb []))]
+
+theorem qsbr_sync_eq : «qsbr.urcu_qsbr_synchronize_rcu» = syncQT «qsbr.wait_for_readers» := rfl
+
+theorem qsbr_grace_period_holds (trk fuel) (g : Nat) (hg : 1 ≤ g) (vars env inp ss wins)
+    (hI : GInvQ .idle g (fun ls => ls.reg ≠ []) vars env ss) :
+    Holds trk (exec fuel (gpBlockQ «qsbr.wait_for_readers») env inp) ss wins (GPostQ .idle (g+1) (fun _ => True) vars) :=
+  gpBlockQ_holds trk fuel _ (fun fuel g gv env inp ss wins h => qsbr_wfr_holds trk fuel g gv env inp ss wins h)
+    g hg vars env inp ss wins hI
+
 end UrcuVerif.Src.SyncQ
